@@ -52,7 +52,12 @@ func c10Entries(thorough bool) []c10Entry {
 var c10IDs = []string{c10A, c10B, string(ap.PublicNS)}
 
 // c10ID names identity i: the three fixed ones, then as many further addressees as a long list needs.
+var c10Named = map[int]string{} // identities with a given spelling (index >= 1000)
+
 func c10ID(i int) string {
+	if s, ok := c10Named[i]; ok {
+		return s
+	}
 	if i < len(c10IDs) {
 		return c10IDs[i]
 	}
@@ -331,8 +336,26 @@ func c10Run(c *engine.Ctx) {
 
 // c10Small: every assignment of at most `bound` entries of es to the five lists (and actor / blocked object) on every host.
 func c10Small(c *engine.Ctx, es []c10Entry, bound int, sixPresentations bool) {
+	// further presentations of identity a, used as the object of a Block only (not enumerated as addressees): embedded
+	// collections that carry the id a and have members of their own
+	nEnum := len(es)
+	member := func() ap.Item { return &ap.Object{ID: c10B, Type: ap.NoteType} }
+	es = append(append([]c10Entry{}, es...),
+		c10Entry{"a:*Collection", 0, func() ap.Item {
+			return &ap.Collection{ID: c10A, Type: ap.CollectionType, TotalItems: 1, Items: ap.ItemCollection{member()}}
+		}},
+		c10Entry{"a:*OrderedCollection", 0, func() ap.Item {
+			return &ap.OrderedCollection{ID: c10A, Type: ap.OrderedCollectionType, OrderedItems: ap.ItemCollection{member(), ap.IRI("https://example.com/other")}}
+		}},
+		c10Entry{"a:*CollectionPage", 0, func() ap.Item {
+			return &ap.CollectionPage{ID: c10A, Type: ap.CollectionPageType, Items: ap.ItemCollection{member()}}
+		}},
+		c10Entry{"a:Collection-value", 0, func() ap.Item {
+			return ap.Collection{ID: c10A, Type: ap.CollectionType, Items: ap.ItemCollection{member()}}
+		}},
+	)
 	nonNil := []int{}
-	for i, e := range es {
+	for i, e := range es[:nEnum] {
 		if e.id >= 0 {
 			nonNil = append(nonNil, i)
 		}
@@ -352,6 +375,7 @@ func c10Small(c *engine.Ctx, es []c10Entry, bound int, sixPresentations bool) {
 			if sixPresentations {
 				blockObjs = []int{0, 2, 3}
 			}
+			blockObjs = append(blockObjs, nEnum, nEnum+1, nEnum+2, nEnum+3)
 			for _, x := range blockObjs {
 				extra = append(extra, c10Assign{actor: -1, object: x})
 			}
@@ -364,7 +388,7 @@ func c10Small(c *engine.Ctx, es []c10Entry, bound int, sixPresentations bool) {
 				bb = b - 1
 			}
 			// one case per first-slot content to keep case descriptions small: enumerate everything, group by `to`
-			c10Enumerate(len(es), bb, func(lists [5][]int) {
+			c10Enumerate(nEnum, bb, func(lists [5][]int) {
 				a := ex
 				for i := range lists {
 					a.lists[i] = append([]int(nil), lists[i]...)
@@ -382,8 +406,49 @@ func c10Small(c *engine.Ctx, es []c10Entry, bound int, sixPresentations bool) {
 	}
 }
 
+// c10NearPairs: two DIFFERENT addressees whose ids are easy to confuse - they differ in one letter that a careless case mapping
+// identifies (U+0130 vs i), only inside an IPv6 literal, or they collide under a common 32-bit hash. Both must be kept, in every
+// arrangement over to / cc / bcc, and a real repeat of either must still go.
+func c10NearPairs(c *engine.Ctx) {
+	pairs := [][2]string{{"https://example.com/~\u0130nci", "https://example.com/~inci"}, {"https://example.com/~\u0131d", "https://example.com/~Id"},
+		{"https://[2001:db8::1]/u", "https://[2001:db8::2]/u"}, {"https://example.com/u?next=/a/", "https://example.com/u?next=/a"}, {"https://example.com/u?a%3Db=c", "https://example.com/u?a=b%3Dc"}}
+	for _, p := range universe.CollidingIDs() {
+		pairs = append(pairs, [2]string{string(p[0]), string(p[1])})
+	}
+	for k, p := range pairs {
+		c10Named[1000+2*k], c10Named[1001+2*k] = p[0], p[1]
+	}
+	for _, h := range c10Hosts() {
+		if h.block {
+			continue
+		}
+		h := h
+		for k := range pairs {
+			ia, ib := 1000+2*k, 1001+2*k
+			les := []c10Entry{
+				{"x:iri", ia, func() ap.Item { return ap.IRI(c10ID(ia)) }},
+				{"y:iri", ib, func() ap.Item { return ap.IRI(c10ID(ib)) }},
+				{"y:*Actor", ib, func() ap.Item { return &ap.Actor{ID: ap.IRI(c10ID(ib)), Type: ap.PersonType} }},
+			}
+			for _, arr := range [][3][]int{{{0, 1}, nil, nil}, {{1, 0}, nil, nil}, {{0}, {1}, nil}, {{0, 2}, {1}, {0}}, {{1}, nil, {0, 1}}, {{0, 1, 0, 1}, nil, nil}} {
+				arr := arr
+				k := k
+				c.Do("C10|"+h.name, func() string {
+					return fmt.Sprintf("%s: two easily confused but different addressees (%q, %q) as to=%v cc=%v bcc=%v ; Recipients() twice", h.name, pairs[k][0], pairs[k][1], arr[0], arr[1], arr[2])
+				}, func(t *engine.T) {
+					t.Distinct(true)
+					a := c10Assign{actor: -1, object: -1}
+					a.lists[0], a.lists[1], a.lists[3] = arr[0], arr[1], arr[2]
+					c10Check(t, les, h, a)
+				})
+			}
+		}
+	}
+}
+
 // c10Long: long lists and ItemCollection.Recipients.
 func c10Long(c *engine.Ctx, es []c10Entry) {
+	c10NearPairs(c)
 	// long lists: N distinct addressees in `to` plus one repeat, at list indices around 64 and 128
 	for _, h := range c10Hosts() {
 		h := h
